@@ -238,3 +238,90 @@ Proof. right. intros (k & v & H). cbn [snd file_get] in H. discriminate. Qed.
 Lemma info_silent e c f : silent f (mkname "cluster_info" e, c).
 Proof. left. reflexivity. Qed.
 End MetaFile.
+
+(* ---------------- glob order is irrelevant under the reading ---------------- *)
+From Coq Require Import Permutation.
+
+(* the reading, for one field: some visible file is the only one that may give values to f, or no
+   file gives any *)
+Definition one_source (files : list (fname * mfile)) (f : string) : Prop :=
+  (exists n c, In (n, c) files /\ excluded n = false /\ others_silent files n f) \/
+  (forall n c, In (n, c) files -> silent f (n, c)).
+
+Theorem glob_order_irrelevant files files' f k :
+  Permutation files files' -> NoDup (map fst files) -> one_source files f ->
+  meta_get (load_all_metadata files) f k = meta_get (load_all_metadata files') f k.
+Proof.
+  intros Hp Hnd [(n & c & Hin & Ex & Hs)|Hs].
+  - rewrite (load_all_get files n c f k Hnd Hin Ex Hs). symmetry.
+    apply (load_all_get files' n c f k).
+    + eapply Permutation_NoDup; [apply Permutation_map; exact Hp | exact Hnd].
+    + eapply Permutation_in; eassumption.
+    + exact Ex.
+    + intros n' c' Hin' Hne. apply Hs; [|exact Hne]. eapply Permutation_in; [apply Permutation_sym; exact Hp|exact Hin'].
+  - rewrite (load_all_none files f k Hs). symmetry. apply load_all_none.
+    intros n c Hin. apply Hs. eapply Permutation_in; [apply Permutation_sym; exact Hp|exact Hin].
+Qed.
+
+(* ---------------- the checker of the reading, and the unified statement ---------------- *)
+(* the boolean test used by the correspondence to check the reading is exact *)
+Lemma defines_b_spec c f : defines_b c f = true <-> Defines c f.
+Proof.
+  unfold defines_b, Defines. split.
+  - intros H. apply existsb_exists in H as (k & _ & Hk).
+    destruct (file_get c f k) as [v|] eqn:E; [|discriminate]. now exists k, v.
+  - intros (k & v & H). apply existsb_exists. exists k. split; [|now rewrite H].
+    destruct c as [h rows|]; [|discriminate]. cbn [file_get file_keys] in *.
+    unfold table_get in H. destruct (String.eqb f "cluster_id"); [discriminate|].
+    apply last_some_char in H as (pre & row & post & -> & Hrow & _).
+    unfold table_keys. apply in_flat_map. exists row. split; [apply in_or_app; right; now left|].
+    unfold row_gives in Hrow. destruct (col_cell h row "cluster_id") as [ck|]; [|discriminate].
+    destruct (col_cell h row f); [|discriminate].
+    destruct (value_eqb k (try_make_number ck)) eqn:E; [|discriminate].
+    apply value_eqb_eq in E. subst k. now left.
+Qed.
+
+Lemma append_inj p a b : String.append p a = String.append p b -> a = b.
+Proof. induction p as [|c p IH]; cbn [String.append]; intros H; [exact H|]. injection H as H. now apply IH. Qed.
+
+Lemma meta_name_inj f g : meta_name f = meta_name g -> f = g.
+Proof. unfold meta_name. intros H. injection H as H. exact H. Qed.
+
+Section Unified.
+Variable classify : string -> cell.
+Notation run := (Model.run classify).
+
+Lemma op_saved_writes f o : op_saved f o = None -> op_writes classify (meta_name f) o = None.
+Proof.
+  destruct o; cbn [op_saved op_writes]; try reflexivity.
+  - destruct (fname_eqb (meta_name f0) (meta_name f)); [discriminate|reflexivity].
+  - destruct (fname_eqb n (meta_name f)); [discriminate|reflexivity].
+Qed.
+
+(* the whole first sentence of the statement in one theorem, on the history functions the
+   correspondence evaluates: [hist_clusters] and [hist_saved] *)
+Theorem last_write_wins d0 ops :
+  NoDup (map fst (d_files d0)) ->
+  clusters_ok (hist_clusters d0 ops) (d_rest d0) ->
+  exists l, view (run d0 ops) = Some l /\
+    v_clusters l = hist_clusters d0 ops /\
+    forall f m, hist_saved ops f = Some m ->
+      f <> "cluster_id"%string -> excluded (meta_name f) = false -> NoDup (map fst m) ->
+      others_silent (d_files (run d0 ops)) (meta_name f) f ->
+      forall k, meta_get (v_meta l) f k = saved_get classify m k.
+Proof.
+  intros Hnd Hok.
+  assert (Hv : exists l, view (run d0 ops) = Some l /\ v_clusters l = hist_clusters d0 ops).
+  { eexists. split; [apply view_ok; rewrite run_clusters, run_rest; exact Hok|]. cbn [v_clusters]. apply run_clusters. }
+  destruct Hv as (l & Hv & Hc). exists l. split; [exact Hv|]. split; [exact Hc|].
+  intros f m Hs Hf Ex Hm Hsil k. unfold hist_saved in Hs.
+  destruct (last_some (op_saved f) ops) as [[m'|]|] eqn:E; try discriminate. injection Hs as ->.
+  apply last_some_char in E as (pre & x & post & Hops & Hx & Hp).
+  destruct x; cbn [op_saved] in Hx; try discriminate.
+  - destruct (fname_eqb (meta_name f0) (meta_name f)) eqn:En; [|discriminate].
+    apply fname_eqb_eq in En. apply meta_name_inj in En. subst f0. injection Hx as ->.
+    subst ops. apply (last_write_meta classify d0 pre post f m k l); auto.
+    eapply Forall_impl; [|exact Hp]. intros o. apply op_saved_writes.
+  - destruct (fname_eqb n (meta_name f)); discriminate.
+Qed.
+End Unified.
